@@ -247,6 +247,28 @@ def run_schedule(db, ref, prog, sched, res, fails, mode, prop):
     return True
 
 
+def idx_dirty_probe(res):
+    """deterministic replay of the listed finding F-IDX-DIRTY (Props/C04.v: index_scan_misses_committed_row_refuted, witness
+    f_idx_dirty_witness): x0 changes the indexed column of a committed row and stays open; x1's index point scan for the
+    committed key neither returns the row nor aborts."""
+    db = DB(mem_kb=400)
+    try:
+        if not db.open().startswith("ok") or not db.sql("CREATE TABLE t(k int, a int, b varchar(255));").startswith("ok"):
+            return
+        reset_table(db)
+        db.cmd("begin x0"); db.cmd("begin x1")
+        db.cmd("tsql x0 UPDATE t SET a = 40 WHERE k = 1;")
+        ans = db.cmd("tsql x1 SELECT k,a FROM t WHERE a = 10;")
+        if ans.startswith("ok") and "i:1,i:10" not in ans:
+            res.known_hits["F-IDX-DIRTY"] = ("an uncommitted key-changing update of another transaction moves the index entry at execution time, so an index scan for the committed key "
+                                             "silently misses the committed row (no lock request, no abort): x0: UPDATE t SET a = 40 WHERE k = 1 (open); x1: SELECT k,a FROM t WHERE a = 10 answered %s, committed data has k=1,a=10" % ans)
+        elif ans != "aborted":
+            pass
+        db.cmd("abort x0"); db.cmd("abort x1")
+    finally:
+        db.destroy()
+
+
 def run(res, replay=None, mode="mixed", prop="C04"):
     res.rule = ("random programs of 2-3 transactions x 1-3 statements over a 4-row table with a skip-list index on every column (point / range / sequential / primary-key reads, inserts, deletes, "
                 "key-changing updates, growing updates, commit or abort); EVERY statement-granularity interleaving of each program is executed with explicit transaction handles on one goroutine; "
@@ -259,6 +281,11 @@ def run(res, replay=None, mode="mixed", prop="C04"):
     if not go_ok:
         return
     rng = random.Random(res.seed)
+    idx_dirty_probe(res)
+    if prop == "C04":
+        # correspondence of the row-level engine model (Model/Engine.v, theorems of Props/C04.v) with the engine
+        import enginecorr
+        enginecorr.run_corr(res, random.Random(res.seed * 7919 + 4), 100 if res.tier == "quick" else 1500, focus="visibility")
     nprog = 14 if res.tier == "quick" else 150
     cap = 120 if res.tier == "quick" else 2000
     db, ref = DB(mem_kb=400), Ref()
